@@ -139,6 +139,7 @@ def kenc(value, unpicklable=True, **kw):
     return _k(value)
 
 
+DICT_SORT = False   # True: dict items are emitted in sorted key order (what the real jsonpickle does: sort_keys)
 SET_ORDER = [None]      # callable(list_of_elements) -> list in "iteration order"; None = as is
 
 
@@ -163,10 +164,16 @@ def _k(v):
             elems = SET_ORDER[0](elems)
         return 'S[' + ','.join(_k(x) for x in elems) + ']'
     if isinstance(v, dict):
-        return 'D{' + ','.join(_k(k) + '=' + _k(x) for k, x in v.items()) + '}'
+        items = list(v.items())
+        if DICT_SORT and all(type(k) is str for k, _ in items):
+            items.sort(key=lambda kv: kv[0])
+        return 'D{' + ','.join(_k(k) + '=' + _k(x) for k, x in items) + '}'
     d = getattr(v, '__dict__', None)
     if isinstance(d, dict):
-        return 'O<' + type(v).__name__ + '>{' + ','.join(_k(k) + '=' + _k(x) for k, x in d.items()) + '}'
+        items = list(d.items())
+        if DICT_SORT:
+            items.sort(key=lambda kv: kv[0])
+        return 'O<' + type(v).__name__ + '>{' + ','.join(_k(k) + '=' + _k(x) for k, x in items) + '}'
     raise TypeError(type(v))
 
 
